@@ -58,9 +58,11 @@ func TestVerifC17DefaultChain(t *testing.T) {
 			srcs = append(srcs, src{a, 4242})
 		}
 		srcs = append(srcs, src{netip.MustParseAddr("127.0.0.255"), 4242}, src{vfgen.GenAddr().Draw(rt, "addr0"), 0})
+		// ... and both halves together, on a transport that is no internal writer: a datagram can claim any source
+		srcs = append(srcs, src{netip.MustParseAddr("127.0.0.255"), 0})
 		for _, sc := range srcs {
 			addr := sc.addr
-			if (addr.IsLoopback() || addr.Unmap().IsLoopback()) && !(addr == netip.MustParseAddr("127.0.0.255") && sc.port != 0) {
+			if (addr.IsLoopback() || addr.Unmap().IsLoopback()) && addr != netip.MustParseAddr("127.0.0.255") {
 				continue // keep clear of the other loopback specials
 			}
 			proto := rapid.SampledFrom([]string{"udp", "tcp"}).Draw(rt, "proto")
@@ -95,8 +97,16 @@ func TestVerifC17DefaultChain(t *testing.T) {
 					rt.Fatalf("list=%q src=%v %s wire=%v: allowed, but replies=%d upstream calls=%d", cidrs, ip, proto, wire, len(wrote), calls)
 				}
 			} else {
+				if (len(wrote) != 0 || calls != 0) && addr == netip.MustParseAddr("127.0.0.255") && sc.port == 0 && vfstat.KnownOpen("C17-sentinel-source-on-a-real-transport") {
+					// known finding: "resolver-internal" is decided from the source address alone (127.0.0.255, port 0),
+					// whatever transport the packet arrived on
+					vfstat.Known(U, "C17-sentinel-source-on-a-real-transport")
+					vfstat.ReportKnown("C17-sentinel-source-on-a-real-transport")
+					vfstat.Eval(U, 1)
+					continue
+				}
 				if len(wrote) != 0 || calls != 0 {
-					rt.Fatalf("list=%q src=%v %s wire=%v: denied, but replies=%d upstream calls=%d", cidrs, ip, proto, wire, len(wrote), calls)
+					rt.Fatalf("list=%q src=%v port=%d %s wire=%v: denied, but replies=%d upstream calls=%d", cidrs, ip, sc.port, proto, wire, len(wrote), calls)
 				}
 				// no cache entry was created by the denied query: an allowed client asking the
 				// same question must still reach upstream.
